@@ -3,6 +3,7 @@
    lists with lower-cased keys (Go maps), call sites are lists of names in any
    letter case; [wf_names l] = no name twice modulo case. *)
 From AL Require Import Base.AList Wf.Calls Wf.CallsProofs Wf.CallsObs Wf.CallsPopular Gen.GenPopular.
+From AL Require Wf.RequiredExpr.
 
 (* ---- unknown inputs / secrets *)
 
@@ -113,6 +114,34 @@ Theorem C14_interface_agree_old_refuted :
              derive_wf_inputs_file ds <> derive_wf_inputs_ast (parse_wc_inputs_old ds).
 Proof. exact interface_agree_old_refuted. Qed.
 Print Assumptions C14_interface_agree_old_refuted.
+
+(* `required:` as written (absent, boolean, one placeholder, anything else): a callee whose values
+   the workflow parser accepts can be read from its file, is read as its syntax tree reads it,
+   and so both derivations give one interface; a value the decoder rejects is one the parser
+   reports.  Before fix 776e2a6 a placeholder made the file unreadable. *)
+Theorem C14_required_as_written_readable : forall ds,
+  RequiredExpr.all_accepted ds = true -> RequiredExpr.decode_inputs ds = Some (RequiredExpr.ast_inputs ds).
+Proof. exact RequiredExpr.decode_accepts. Qed.
+Print Assumptions C14_required_as_written_readable.
+
+Theorem C14_required_unreadable_is_reported : forall ds,
+  RequiredExpr.decode_inputs ds = None -> RequiredExpr.all_accepted ds = false.
+Proof. exact RequiredExpr.decode_rejects. Qed.
+Print Assumptions C14_required_unreadable_is_reported.
+
+Theorem C14_interface_agree_as_written : forall ins secs outs ins' secs',
+  RequiredExpr.all_accepted ins = true -> RequiredExpr.all_accepted_s secs = true ->
+  NoDup (map (fun kd => lower (fst kd)) ins) -> NoDup (map (fun kr => lower (fst kr)) secs) -> wf_names outs ->
+  RequiredExpr.decode_inputs ins = Some ins' -> RequiredExpr.decode_secrets secs = Some secs' ->
+  wf_meta false ins' secs' outs = wf_meta true (RequiredExpr.ast_inputs ins) (RequiredExpr.ast_secrets secs) outs.
+Proof. exact RequiredExpr.interface_agree_written. Qed.
+Print Assumptions C14_interface_agree_as_written.
+
+Theorem C14_required_placeholder_old_refuted :
+  exists ds, RequiredExpr.all_accepted ds = true /\ RequiredExpr.decode_inputs_old ds = None /\
+             RequiredExpr.decode_inputs ds = Some (RequiredExpr.ast_inputs ds).
+Proof. exact RequiredExpr.decode_old_refuted. Qed.
+Print Assumptions C14_required_placeholder_old_refuted.
 
 (* ---- outputs *)
 
